@@ -255,3 +255,17 @@ pub fn live_at(addr: usize) -> Option<(usize, u64)> {
 pub fn is_enabled() -> bool {
     TRACK.load(Ordering::Relaxed)
 }
+
+/// Watches the live allocation starting at `addr` on behalf of `zone`.
+/// Returns its serial number, or `None` if nothing is allocated there.
+pub fn watch_addr(zone: u32, addr: usize) -> Option<u64> {
+    with_state(|s| {
+        let (size, serial) = s.live.get(&addr).copied()?;
+        let recs = s.zones.entry(zone).or_default();
+        recs.push(Watch { zone, addr, serial, size, freed: false });
+        let idx = recs.len() - 1;
+        s.by_addr.insert(addr, (zone, idx));
+        Some(serial)
+    })
+    .flatten()
+}
